@@ -260,6 +260,65 @@ def main():
                     if isinstance(f, ast.FunctionDef):
                         hashes['%s.%s.%s' % (m, n.name, f.name)] = fhash(f)
 
+    # ---- excel_ui: workbook schema and the order of the documented fault checks -----------------------------
+    ex = trees['excel_ui']
+
+    def top_func(tree, name):
+        for n in tree.body:
+            if isinstance(n, ast.FunctionDef) and n.name == name:
+                return n
+
+    def leading_text(e):
+        while True:
+            if isinstance(e, ast.Constant) and isinstance(e.value, str):
+                return e.value
+            if isinstance(e, ast.Call) and isinstance(e.func, ast.Attribute) and e.func.attr == 'format':
+                e = e.func.value
+            elif isinstance(e, ast.BinOp):
+                e = e.left
+            elif isinstance(e, ast.JoinedStr) and e.values:
+                e = e.values[0]
+            else:
+                return ast.unparse(e)
+
+    def raise_sites(fn):
+        out = []
+        for n in ast.walk(fn):
+            if isinstance(n, ast.Raise) and isinstance(n.exc, ast.Call) and ast.unparse(n.exc.func).endswith('ExcelUIException') and n.exc.args:
+                out.append((n.lineno, leading_text(n.exc.args[0])))
+        return [t for _, t in sorted(out)]
+    sample_raises = raise_sites(top_func(ex, 'process_samples_table'))
+    beads_raises = raise_sites(top_func(ex, 'process_beads_table'))
+    # sheets appended in run(): (name, only when hist_sheet)
+    sheets = []
+    runf = top_func(ex, 'run')
+
+    def visit(stmts, cond):
+        for st in stmts:
+            if isinstance(st, ast.If):
+                c = cond or ast.unparse(st.test) == 'hist_sheet'
+                other = cond or ast.unparse(st.test) != 'hist_sheet'
+                visit(st.body, c if ast.unparse(st.test) == 'hist_sheet' else cond)
+                visit(st.orelse, cond)
+            elif isinstance(st, (ast.For, ast.While, ast.With, ast.Try)):
+                visit(getattr(st, 'body', []), cond)
+            elif isinstance(st, ast.Expr) and isinstance(st.value, ast.Call) and ast.unparse(st.value.func) == 'table_list.append' and st.value.args \
+                    and isinstance(st.value.args[0], ast.Tuple) and isinstance(st.value.args[0].elts[0], ast.Constant):
+                sheets.append((st.lineno, st.value.args[0].elts[0].value, bool(cond)))
+    visit(runf.body, False)
+    sheets = [(n, c) for _, n, c in sorted(sheets)]
+    # result columns created by add_samples_stats: table-level ones, then per reported channel (channel + suffix), in first-assignment order
+    head, per = [], []
+    for n in ast.walk(top_func(ex, 'add_samples_stats')):
+        if isinstance(n, ast.Assign) and len(n.targets) == 1 and isinstance(n.targets[0], ast.Subscript) and ast.unparse(n.targets[0].value) == 'samples_table':
+            k = n.targets[0].slice
+            if isinstance(k, ast.Constant) and isinstance(k.value, str):
+                head.append((n.lineno, k.value))
+            elif isinstance(k, ast.BinOp) and isinstance(k.op, ast.Add) and ast.unparse(k.left) == 'channel' and isinstance(k.right, ast.Constant):
+                per.append((n.lineno, k.right.value))
+    head = [t for _, t in sorted(head)]
+    per = [t for _, t in sorted(per)]
+
     strip = lambda xs: [x.lstrip('_') for x in xs]
     facts = {
         'sampleFields': strip(sample_fields), 'finalizeFields': strip(finalize_fields),
@@ -268,6 +327,8 @@ def main():
         'setstatePairs': [[a.lstrip('_'), b] for a, b in setstate_pairs],
         'getitemBranches': [[[a.lstrip('_'), [x.lstrip('_') for x in b]] for a, b in br] for br in branches],
         'writeSites': ws, 'hashes': hashes,
+        'sampleRaiseSites': sample_raises, 'beadsRaiseSites': beads_raises, 'outputSheetSpec': [[n, c] for n, c in sheets],
+        'statsHeadColumns': head, 'statsPerChannelSuffixes': per,
         'summary': {'sampleFields': len(sample_fields), 'finalizeFields': len(finalize_fields),
                     'pickleFields': len(pickle_fields), 'writeSites': len(ws), 'functions_hashed': len(hashes)},
     }
@@ -287,6 +348,12 @@ def main():
     L.append('structure WriteSite where\n  module : String\n  function : String\n  kind : String\n  target : String\n  deriving DecidableEq, Repr')
     L.append('def writeSites : List WriteSite := [' + ',\n  '.join(
         '⟨"%s", "%s", "%s", "%s"⟩' % (w['module'], w['function'], w['kind'], w['target'].replace('"', "'")) for w in ws) + ']')
+    lstr = lambda x: '"' + x.replace('\\', '\\\\').replace('"', '\\"') + '"'
+    L.append('def sampleRaiseSites : List String := [' + ', '.join(lstr(x) for x in sample_raises) + ']')
+    L.append('def beadsRaiseSites : List String := [' + ', '.join(lstr(x) for x in beads_raises) + ']')
+    L.append('def outputSheetSpec : List (String × Bool) := [' + ', '.join('(%s, %s)' % (lstr(n), 'true' if c else 'false') for n, c in sheets) + ']')
+    L.append('def statsHeadColumns : List String := [' + ', '.join(lstr(x) for x in head) + ']')
+    L.append('def statsPerChannelSuffixes : List String := [' + ', '.join(lstr(x) for x in per) + ']')
     L.append('end FlowCal.Generated')
     new_src = '\n'.join(L) + '\n'
     old = open(OUT_LEAN).read() if os.path.exists(OUT_LEAN) else None
